@@ -9,12 +9,13 @@ Inductive at_path : ty -> path -> field -> Prop :=
     at_path (TStruct fs) (i :: p) fl.
 
 (* the field is settable, carries a non-empty tag for the source, and the data holds a key equal to it
-   (exactly, or under strings.EqualFold) *)
+   (exactly, or under strings.EqualFold); what is written are that key's values (the first one for a scalar), an
+   empty text standing for the zero of a numeric kind ([stored]) *)
 Definition supplied (fl : field) (s : source) (d : data) (vals : list str) : Prop :=
   match fl with Field st an tags ft =>
     st = true /\ tag_of tags s <> [] /\
-    exists key all, In (key, all) d /\ (key = tag_of tags s \/ eq_fold key (tag_of tags s) = true) /\
-                    (vals = all \/ exists v r, all = v :: r /\ vals = [v])
+    exists key all k, In (key, all) d /\ (key = tag_of tags s \/ eq_fold key (tag_of tags s) = true) /\
+                    (vals = map (stored k) all \/ exists v r, all = v :: r /\ vals = [stored k v])
   end.
 
 Lemma lookup_some d k v : lookup d k = Some v -> exists key, In (key, v) d /\ (key = k \/ eq_fold key k = true).
@@ -27,10 +28,10 @@ Proof.
     exists (fst kv). split; [rewrite <- surjective_pairing; exact Hin|right; exact He].
 Qed.
 
-Lemma supplied_intro an tags ft s d all vals : tag_of tags s <> [] -> lookup d (tag_of tags s) = Some all ->
-  (vals = all \/ exists v r, all = v :: r /\ vals = [v]) -> supplied (Field true an tags ft) s d vals.
+Lemma supplied_intro an tags ft s d all vals k : tag_of tags s <> [] -> lookup d (tag_of tags s) = Some all ->
+  (vals = map (stored k) all \/ exists v r, all = v :: r /\ vals = [stored k v]) -> supplied (Field true an tags ft) s d vals.
 Proof. intros Hne Hl Hv. destruct (lookup_some _ _ _ Hl) as [key [Hk Hke]]. unfold supplied.
-  split; [reflexivity|]. split; [exact Hne|]. exists key, all. auto. Qed.
+  split; [reflexivity|]. split; [exact Hne|]. exists key, all, k. auto. Qed.
 
 Definition inner_go (bind_rec : ty -> data -> source -> path -> result) (d : data) (s : source) (pre : path) :=
   fix go (fs : list field) (i : nat) : result :=
@@ -51,10 +52,10 @@ Definition inner_go (bind_rec : ty -> data -> source -> path -> result) (d : dat
                      | Some vals =>
                          match ft with
                          | TScalar k => match vals with
-                                        | v :: _ => if conv_ok k v then Writes [(pre ++ [i], [v])] else Error
+                                        | v :: _ => if conv_ok k v then Writes [(pre ++ [i], [stored k v])] else Error
                                         | [] => Writes []
                                         end
-                         | TSlice k => if forallb (conv_ok k) vals then Writes [(pre ++ [i], vals)] else Error
+                         | TSlice k => if forallb (conv_ok k) vals then Writes [(pre ++ [i], map (stored k) vals)] else Error
                          | TStruct _ => Error
                          end
                      end
@@ -99,10 +100,10 @@ Proof.
         * destruct (lookup d (c0 :: tg)) as [all|] eqn:El; [|inversion Eh; subst; contradiction].
           destruct all as [|v r0]; [inversion Eh; subst; contradiction|].
           destruct (conv_ok k v); [|discriminate]. inversion Eh; subst. destruct Hin0 as [Hin0|[]]. inversion Hin0; subst.
-          split; [reflexivity|]. apply (supplied_intro an tags (TScalar k) s d (v :: r0)); [rewrite Et; discriminate|rewrite Et; exact El|right; eauto].
+          split; [reflexivity|]. apply (supplied_intro an tags (TScalar k) s d (v :: r0) _ k); [rewrite Et; discriminate|rewrite Et; exact El|right; eauto].
         * destruct (lookup d (c0 :: tg)) as [all|] eqn:El; [|inversion Eh; subst; contradiction].
           destruct (forallb (conv_ok k) all); [|discriminate]. inversion Eh; subst. destruct Hin0 as [Hin0|[]]. inversion Hin0; subst.
-          split; [reflexivity|]. apply (supplied_intro an tags (TSlice k) s d vals0); [rewrite Et; discriminate|rewrite Et; exact El|left; reflexivity].
+          split; [reflexivity|]. apply (supplied_intro an tags (TSlice k) s d all _ k); [rewrite Et; discriminate|rewrite Et; exact El|left; reflexivity].
         * destruct an; [discriminate|]. destruct (lookup d (c0 :: tg)); [discriminate|inversion Eh; subst; contradiction].
     - destruct (IHr (S i) w2 Er p0 vals0 Hin0) as [j [fl0 [Hn Hc]]]. exists (S j), fl0. split; [exact Hn|].
       replace (i + S j) with (S i + j) by lia. exact Hc. }
